@@ -75,14 +75,14 @@ pub open spec fn scope_read_step(s0: Scope, bytes: Seq<u8>, pos0: int, limit: in
                         && r matches Ok(None),
                 }
             } else if bit_pos >= limit {
-                r is Err            // the extension bit itself lies beyond the visible end
+                r is Err && s1 == s0            // the extension bit itself lies beyond the visible end; nothing changed
             } else if !bit_at(bytes, bit_pos as int) {
                 // no addition present
                 pos1 == pos0 && s1 == Scope::ExtensibleSequenceEmpty(name) && is_absent(r)
             } else {
                 // additions present: transmitted count (normally small length + 1), bitmap of that many bits
                 match dec_nsnnwn(bytes, pos0, limit) {
-                    None => r is Err,
+                    None => r is Err && s1 == s0,
                     Some((c, p1)) => {
                         let k: int = if c + 1 > usize::MAX { usize::MAX as int } else { c + 1 };          // transmitted count (>= 1)
                         let end: int = if p1 + k > usize::MAX { usize::MAX as int } else { p1 + k };      // end of the transmitted bitmap
